@@ -250,6 +250,7 @@ pub fn adts<'tcx>(tcx: TyCtxt<'tcx>) -> Vec<J> {
         out.push(obj! {
             "path": J::s(def_path(tcx, did)),
             "kind": J::s(if def.is_enum() { "enum" } else if def.is_union() { "union" } else { "struct" }),
+            "exported": J::Bool(tcx.effective_visibilities(()).is_reachable(item.owner_id.def_id)),
             "transparent": J::Bool(repr.transparent()),
             "repr_c": J::Bool(repr.c()),
             "repr_int": J::s(repr.int.map(|i| format!("{:?}", i)).unwrap_or_default()),
